@@ -128,6 +128,10 @@ func buildModule(s ModSpec) []byte {
 	k := int32(s.K * 100)
 	f0 := m.AddFunc(nil, t0r, nil, (&wenc.Code{}).I32Const(k).End().B)
 	f1 := m.AddFunc(nil, t0r, nil, (&wenc.Code{}).I32Const(k+1).End().B)
+	// rec(n) = n == 0 ? 0 : rec(n-1)+1 : deep native recursion (grows the compiler's stack through the shared stack-grow trampoline)
+	rec := m.NumImportedFuncs() + uint32(len(m.Funcs))
+	m.AddFunc([]wenc.ValType{i32}, t0r, nil, (&wenc.Code{}).LocalGet(0).Op(0x45).If(i32).I32Const(0).Else().
+		LocalGet(0).I32Const(1).Op(0x6b).Call(rec).I32Const(1).Op(0x6a).End().End().B)
 	// globals: fg (mutable funcref), xg (const ref.func f1), gi (mutable i32)
 	fg, xg, gi := gIdx, gIdx+1, gIdx+2
 	m.Globals = []wenc.Global{
@@ -144,9 +148,14 @@ func buildModule(s ModSpec) []byte {
 	da := &wenc.Code{}
 	da.I32Const(0).LocalGet(0).I32Const(3).Op(0x6c).I32Const(int32(s.K)).Op(0x6a).Mem(0x36, 2, 0) // i32.store
 	da.LocalGet(0).Call(act)
-	da.I32Const(0).Mem(0x28, 2, 0) // i32.load
+	// straight after host.act returns (before any function entry): the engine-wide shared trampolines
+	da.I32Const(0).MemoryGrow().Drop()                                // memory.grow
+	da.RefNull(funcref).I32Const(0).Prefixed(0xfc, 15).U32(pt).Drop() // table.grow
+	da.RefFunc(f0).Drop()                                             // run-time ref.func
+	da.I32Const(0).Mem(0x28, 2, 0)                                    // i32.load
 	da.Call(f1).Op(0x6a)
 	da.GlobalGet(gi).Op(0x6a)
+	da.I32Const(400).Call(rec).Drop() // stack growth
 	da.LocalGet(1).TableGet(pt).RefIsNull().If(i32).I32Const(0).Else().LocalGet(1).CallIndirect(t0, pt).End().Op(0x6a)
 	if hasImp {
 		da.Call(imp).Op(0x6a)
@@ -203,6 +212,10 @@ func buildModule(s ModSpec) []byte {
 		(&wenc.Code{}).I32Const(16).LocalGet(0).Mem(0x36, 2, 0).I32Const(16).Mem(0x28, 2, 0).MemorySize().Op(0x6a))
 	exp("mem_grow", []wenc.ValType{i32}, t0r, (&wenc.Code{}).LocalGet(0).MemoryGrow())
 	exp("gi_set", []wenc.ValType{i32}, nil, (&wenc.Code{}).LocalGet(0).GlobalSet(gi))
+	// tramp(n): memory.grow 0, table.grow 0, ref.func, deep recursion: every shared trampoline, no lasting state; returns n
+	exp("tramp", []wenc.ValType{i32}, t0r, (&wenc.Code{}).I32Const(0).MemoryGrow().Drop().
+		RefNull(funcref).I32Const(0).Prefixed(0xfc, 15).U32(pt).Drop().
+		RefFunc(f1).RefIsNull().LocalGet(0).Call(rec).Op(0x6a))
 
 	// ---- element segments ----
 	ptInit := []uint32{f0}
